@@ -293,7 +293,7 @@ pub fn run(ctx: &Ctx) -> Report {
         }
     });
     rep.merge(r);
-    if !ctx.miri && ctx.only.is_none() {
+    if ctx.strict() {
         rep.require("big_messages_compared", 5);
         rep.require("maximal_packets_seen", 5);
         rep.require("empty_trailers_seen", 1);
